@@ -1,9 +1,14 @@
 package ircomp
 
 import (
+	"math"
+
 	"github.com/arnodel/golua/code"
 	"github.com/arnodel/golua/ir"
 )
+
+// maxCodeSize is the maximum number of opcodes in the code of one function.
+const maxCodeSize = math.MaxInt16
 
 type ConstantCompiler struct {
 	builder       *code.Builder
@@ -70,6 +75,11 @@ func (kc *ConstantCompiler) ProcessCode(c ir.Code) {
 		instr.ProcessInstr(ic)
 	}
 	end := kc.builder.Offset()
+	if end-start > maxCodeSize {
+		// Jump offsets and the program counter of the VM are 16 bit signed
+		// integers
+		panic(newPanic("function too large"))
+	}
 	kc.addCompiled(code.Code{
 		Name:         c.Name,
 		StartOffset:  start,
